@@ -264,7 +264,8 @@ def gen_vgattr(r, name):
     for _ in range(r.choice([1, 2, 3])):
         i = r.randrange(k)
         cand = [(nm, nt) for nm, nt in pool if nm not in have.get(i, set())]
-        nm, nt = r.choice(cand)
+        ext = [(nm, nt) for nm, nt in cand if any(nm.startswith(h) and nm != h for h in have.get(i, set()))]
+        nm, nt = r.choice(ext if ext and r.random() < 0.8 else cand)   # mostly: a stored name is a proper prefix of the new one
         have.setdefault(i, set()).add(nm)
         ops.append("vgattr %d %s %d %d" % (i, nm, nt, r.randrange(1, 30000)))
     return {"name": name, "kind": "VGATTR", "ndds": r.choice([4, 16]), "base": base, "ops": ops}
